@@ -30,6 +30,7 @@ type c11ClientCase struct {
 	op       map[string]any
 	out      map[string]any
 	crash    string
+	declLen  *int64 // the declared Content-Length, when it is set apart from the body
 }
 
 var c11Statuses = []int{200, 201, 204, 206, 100, 101, 199, 301, 304, 399, 400, 401, 404, 409, 422, 499, 500, 502, 503, 599, 600, 999, -1, 1000000}
@@ -99,6 +100,16 @@ func c11Client(c *Ctx, r *gen.R, items []*rtItem, _ int, driverOK bool) error {
 			default:
 				k.label, k.body = "top_level", []byte(gen.Pick(rr, []string{"null", "[]", "5", `"x"`, "{}", "{} x"}))
 			}
+			// the Content-Length the response DECLARES (independent of the bytes that follow): absent,
+			// exact, too short, too long, zero, absurd — the outcome may depend on the body only
+			if rr.P(1, 3) {
+				n := int64(len(k.body)) * int64(max(k.repeat, 1))
+				dl := gen.Pick(rr, []int64{n, n + 100, n - 1, 0, 1 << 31, 1 << 48, 1 << 62, 9223372036854775807})
+				if dl >= 0 {
+					k.declLen = &dl
+					k.label += "+declared_length"
+				}
+			}
 			all = append(all, k)
 		}
 	}
@@ -109,6 +120,9 @@ func c11Client(c *Ctx, r *gen.R, items []*rtItem, _ int, driverOK bool) error {
 			"handler": map[string]any{"kind": "ok"}}
 		if k.clientCT != "" {
 			op["client_ct"] = k.clientCT
+		}
+		if k.declLen != nil {
+			op["canned_content_length"] = *k.declLen
 		}
 		switch k.exchange {
 		case "read_error":
